@@ -109,6 +109,36 @@ def check(run, repo):
         for k, x in kw.items():
             v[int(k[1:])] = x
         return v
+    # --- what pandas is asked to read: the rows the caller wants skipped (the comment row by default, none when
+    #     the sheet has no comment row), the header row, the workbook and every pandas option are passed on as given
+    for label, given in (('default', {}), ('no comment row: skiprows=[]', {'skiprows': ListV([])}),
+                         ('no comment row: skiprows=None', {'skiprows': None}),
+                         ('skiprows=[1, 2]', {'skiprows': ListV([C(1), C(2)])}),
+                         ('header=2', {'header': C(2)}), ('sheet_name', {'sheet_name': 'Sheet7'})):
+        I = Interp(repo, max_depth=12)
+        seen = {}
+
+        def reader(I_, fr, a_, k_, n_, seen=seen):
+            seen['args'], seen['kwargs'] = list(a_), dict(k_)
+            return sheet(I_, [])
+        I.native['pandas.read_excel'] = reader
+        I.native['pandas.isnull'] = lambda I_, fr, a_, k_, n_: a_[0] is None
+        I.native['os.path.dirname'] = lambda I_, fr, a_, k_, n_: '/dir'
+        fn = m.functions['read_excel']
+        I.call_function(m, fn, [], dict({'io': '/dir/book.xlsx'}, **given))
+        kw = dict(seen.get('kwargs', {}))
+        if seen.get('args'):
+            kw.setdefault('io', seen['args'][0])
+        want = {'io': '/dir/book.xlsx', 'skiprows': ListV([C(1)]), 'header': C(0)}
+        want.update(given)
+        ok = set(kw) == set(want) and all(val_same(kw[k], want[k]) if isinstance(want[k], (Rat, ListV)) else
+                                          kw[k] == want[k] for k in want)
+        run.check(ok, 'FWD.pandas', 'excel.read_excel', label,
+                  '[%s] pandas.read_excel is called with %s, expected %s: the rows to skip (second row reserved for '
+                  'comments unless the caller says otherwise), the header row and the pandas options must be passed '
+                  'on as given' % (label, {k: show(v, 40) for k, v in sorted(kw.items())},
+                                   {k: show(v, 40) for k, v in sorted(want.items())}), m, fn,
+                  sample='[%s] forwarded to pandas: %s' % (label, sorted(want)))
     # --- sheet 1: ordinary + composition + lists, three rows with different subsets and empty cells ------------
     rows = [
         [(' name ', '  H2O '), ('element.H', a('nH')), ('element.O', a('nO')), ('vib_wavenumber', a('w1')),
